@@ -4,6 +4,7 @@ mod arena;
 mod builder;
 mod code;
 mod irtext;
+mod maps;
 mod modsuite;
 mod modtext;
 mod offsets;
@@ -55,6 +56,7 @@ fn main() {
         "offsets" => offsets::main(seed, &tier, only.as_deref()),
         "dwarf" => dwarf::main(seed, &tier, only.as_deref()),
         "module" => modsuite::main(seed, &tier, only.as_deref()),
+        "maps" => maps::main(seed, &tier, only.as_deref()),
         "opsxtest" => {
             let u = opsx::universe(1);
             println!("supported plain ops {} typed {} unsupported {} cases {} untypable {:?}", u.supported_plain, u.typed, u.unsupported, u.cases.len(), u.untypable);
